@@ -47,7 +47,7 @@ def kind_of(v) -> str:
         if t is not None and t.prim:
             p = t.prim
             table = {"int": "int", "float": "float", "str": "str", "bool": "bool", "bytes": "bytes", "ext:uuid.UUID": "uuid", "ext:decimal.Decimal": "decimal",
-                     "ext:datetime.datetime.fromisoformat": "datetime", "ext:datetime.date.fromisoformat": "date", "ext:base64.b64decode": "bytes",
+                     "ext:datetime.datetime.fromisoformat": "datetime", "ext:datetime.date.fromisoformat": "date", "ext:base64.b64decode": "bytes", "ext:binascii.a2b_base64": "bytes", "ext:base64.standard_b64decode": "bytes",
                      "ext:builtins.tuple": "tuple", "ext:builtins.list": "list", "ext:builtins.dict": "dict"}
             if p in table:
                 return table[p]
@@ -508,6 +508,44 @@ def _round_h2_rules(ck, sd):
           f"decoding costs {df} Python frames per nesting level ({' ; '.join(dp)}), encoding only {ef} ({' ; '.join(ep)}): containers nested deeper than "
           f"recursion-limit/{df} but not deeper than recursion-limit/{ef} are serialized and checkpointed, and every replay fails with 'Deserialization failed' "
           "(RecursionError)")
+
+    # R12b ... the same at the leaves: a leaf codec whose decode enters more Python frames than its encode leaves one nesting depth (per caller stack
+    # depth) at which the value is accepted and cannot be read back (h3_C15 #1 / g1_codecs #2: base64.b64decode -> _bytes_from_decode_data is one frame
+    # deeper than b64encode). Frames below a call `mod.func(...)` are read off the standard library's own source: a module-level `def` is a frame (plus
+    # the deepest module-level def it calls by name), anything else (C functions, methods of C types) is none.
+    import importlib.util
+    _src_cache: dict[str, dict] = {}
+
+    def py_depth(modname: str, fname: str, seen=()) -> int:
+        if modname not in _src_cache:
+            spec = importlib.util.find_spec(modname)
+            defs = {}
+            if spec is not None and spec.origin and spec.origin.endswith(".py"):
+                for st in ast.parse(open(spec.origin).read()).body:
+                    if isinstance(st, ast.FunctionDef):
+                        defs[st.name] = st
+            _src_cache[modname] = defs
+        fdef = _src_cache[modname].get(fname)
+        if fdef is None or fname in seen:
+            return 0
+        below = [py_depth(modname, c.func.id, seen + (fname,)) for c in ast.walk(fdef) if isinstance(c, ast.Call) and isinstance(c.func, ast.Name)]
+        return 1 + max(below, default=0)
+
+    imported = {a.asname or a.name: a.name for st in sd.tree.body if isinstance(st, ast.Import) for a in st.names}
+    n_leaf = 0
+    for cn, c in sd.classes.items():
+        if not cn.endswith("Codec") or cn in ("ContainerCodec", "TypeCodec") or "encode" not in c.methods or "decode" not in c.methods:
+            continue
+        cost = {}
+        for mn in ("encode", "decode"):
+            calls = [(imported[x.func.value.id], x.func.attr, x.lineno) for x in ast.walk(c.methods[mn].node)
+                     if isinstance(x, ast.Call) and isinstance(x.func, ast.Attribute) and isinstance(x.func.value, ast.Name) and x.func.value.id in imported]
+            cost[mn] = max([(py_depth(m, f), f"{m}.{f}") for m, f, _ln in calls], default=(0, "-"))
+        n_leaf += 1
+        ck.ob("R12.leaf-decoder-no-deeper-than-leaf-encoder", f"serdes.py:{cn}.decode", cost["decode"][0] <= cost["encode"][0],
+              f"decoding enters {cost['decode'][0]} Python frame(s) below the codec ({cost['decode'][1]}), encoding {cost['encode'][0]} ({cost['encode'][1]}): at the deepest "
+              "nesting level the encoder still accepts, the decoder overflows - the value is checkpointed and every replay fails with 'Deserialization failed'")
+    ck.floor("leaf_codecs_compared", n_leaf, 4)
 
     # R13 the dispatcher hands the VALUE to the codec that was selected for its type; an arm that converts it first (`bytes(obj)`) selects by a set of
     # types but records only one: the others are accepted and come back as that one ("rejected rather than silently altered")
